@@ -320,6 +320,16 @@ func (g *lgen) gen(h uint64) *ltx {
 		}
 		amt := new(big.Int).Add(r.BigBelow(pip(1000000)), Z(1))
 		maxs := new(big.Int).Mul(amt, Z(int64(1+r.Intn(3))))
+		// boundaries of the supply checks (decided by the digits of amt: no further draw): maximum below / equal to the
+		// initial amount, maximum at / above the global cap
+		switch new(big.Int).Mod(amt, Z(16)).Int64() {
+		case 0, 1:
+			maxs = new(big.Int).Sub(amt, Z(1))
+		case 2:
+			maxs = new(big.Int).Set(amt)
+		case 3:
+			maxs = new(big.Int).Add(new(big.Int).Exp(Z(10), Z(33), nil), Z(int64(amt.Bit(4))))
+		}
 		mintable := r.Intn(3) != 0
 		burnable := r.Bool()
 		name := strings.Repeat("r", r.Intn(5))
@@ -996,6 +1006,9 @@ func runLedger(pid string, seed uint64, n int, out, stats string) {
 						id, _ := strconv.Atoi(tr.Tags["tx.coin_id"])
 						g.tokens = append(g.tokens, types.CoinID(id))
 						g.symOf[types.CoinID(id)] = d.Symbol
+						if cn := nd.App.CurrentState().Coins().GetCoin(types.CoinID(id)); cn != nil && cn.Volume().Cmp(cn.MaxSupply()) > 0 {
+							mon = append(mon, MonitorFailure{What: fmt.Sprintf("C02: RecreateToken accepted with initial amount %s and maximum supply %s: coin %d now has volume %s above its maximum supply %s", d.InitialAmount, d.MaxSupply, id, cn.Volume(), cn.MaxSupply()), Key: "c02-volume-above-max", Replay: where})
+						}
 					case transaction.EditCoinOwnerData:
 						delete(g.owner, d.Symbol)
 						for _, u := range g.users {
